@@ -247,6 +247,12 @@ impl Pattern {
         self.anchored_regex.is_partial_match(path)
     }
 
+    /// Tells if a path that starts with the given bytes can match this pattern fully.
+    /// Returns `None` if that cannot be determined.
+    pub fn can_start_with(&self, bytes: &[u8]) -> Option<bool> {
+        self.anchored_regex.can_start_with(bytes)
+    }
+
     /// Returns true if this pattern fully matches a prefix of the given path
     pub fn matches_prefix(&self, path: &str) -> bool {
         self.prefix_regex.is_match(path)
